@@ -1091,6 +1091,21 @@ def r_attrread(ctx) -> RuleResult:
                         if c is n:
                             par = x
                 is_store = isinstance(par, ast.Subscript) and isinstance(par.ctx, (ast.Store, ast.Del))
+                # handed over as a whole to another graph's .graph (what a copy does anyway): carried along, not read
+                gp = None
+                for x in own_walk(fn):
+                    for c in ast.iter_child_nodes(x):
+                        if c is par:
+                            gp = x
+                carried_over = (isinstance(par, ast.Call) and n in par.args and isinstance(par.func, ast.Attribute) and par.func.attr == "update"
+                                and isinstance(par.func.value, ast.Attribute) and par.func.value.attr == "graph") \
+                    or (isinstance(par, ast.Attribute) and par.attr in ("update", "clear") and isinstance(gp, ast.Call) and gp.func is par) \
+                    or (isinstance(par, (ast.Assign,)) and par.value is n and isinstance(par.targets[0], ast.Attribute) and par.targets[0].attr == "graph") \
+                    or (isinstance(par, ast.Call) and isinstance(par.func, ast.Name) and par.func.id in ("dict",) and isinstance(gp, ast.Assign) and isinstance(gp.targets[0], ast.Attribute) and gp.targets[0].attr == "graph") \
+                    or (isinstance(par, ast.Attribute) and par.attr == "copy" and isinstance(gp, ast.Call))
+                if carried_over:
+                    res.inst(fi.fq, short(par if par is not None else n), "ok", detail="graph-level data handed over as a whole, not inspected")
+                    continue
                 if not is_store:
                     n_reads += 1
                     res.inst(fi.fq, short(par if par is not None else n), "fail")
